@@ -19,8 +19,8 @@ import cxx2c
 STD_CHECKS = ['--bounds-check', '--pointer-check', '--signed-overflow-check', '--unsigned-overflow-check',
               '--div-by-zero-check', '--no-pointer-primitive-check']
 MEM_LIMIT = 16 << 30
-CONTRACT_CLASSES = ('postcondition', 'precondition', 'loop_invariant_base', 'loop_invariant_step',
-                    'loop_decreases', 'loop_step_unwinding', 'assertion', 'assigns', 'unwind')
+# obligation classes whose number is fixed by the SPEC (not by the code): these are counted in the ledger
+CONTRACT_CLASSES = ('postcondition', 'loop_invariant_base', 'loop_invariant_step', 'loop_decreases')
 
 class Undecided(Exception):
     pass
